@@ -357,6 +357,11 @@ mod train {
         pub user_entries: Vec<(String, String, u16, u16, i16, u32)>,
     }
 
+    /// Number of rows of the raw model's bigram weight table (row 0 belongs to BOS); no merge.
+    pub fn model_bigram_rows(model: &Model) -> usize {
+        model.data.raw_model.bigram_weight_indices().len()
+    }
+
     /// Copies the data of the model (merging it first, as the writers do).
     pub fn model_view(model: &mut Model) -> Result<ModelView> {
         if model.merged_model.is_none() {
